@@ -86,7 +86,14 @@ func (l c45Loc) String() string {
 	if l.abs {
 		s = "/"
 	}
-	s += strings.Repeat("../", l.ups) + strings.Join(l.segs, "/")
+	parts := append(strings.Split(strings.Repeat("..,", l.ups), ","), l.segs...)
+	nonEmpty := parts[:0]
+	for _, p := range parts {
+		if p != "" {
+			nonEmpty = append(nonEmpty, p)
+		}
+	}
+	s += strings.Join(nonEmpty, "/")
 	if s == "" {
 		s = "."
 	}
@@ -190,9 +197,9 @@ func TestVerifC45(t *testing.T) {
 					sbClass = "relative sandbox starting with '..'"
 				}
 			}
-			pClass := "relative path"
+			pClass := "a relative path"
 			if strings.HasPrefix(p, "/") {
-				pClass = "absolute path"
+				pClass = "an absolute path"
 			}
 			detail := map[string]any{"sandbox": sb, "path": p, "returned": got, "sandbox_resolves_to": sbLoc.String(), "path_resolves_to": want.String()}
 			if !inside {
@@ -203,13 +210,13 @@ func TestVerifC45(t *testing.T) {
 					fmt.Sprint(want.segs[:len(sbLoc.segs)-1]) == fmt.Sprint(sbLoc.segs[:len(sbLoc.segs)-1]) && strings.HasPrefix(want.segs[len(sbLoc.segs)-1], sbLoc.segs[len(sbLoc.segs)-1]) {
 					how = "a sibling whose name starts with the sandbox's name"
 				}
-				c.Violation(fmt.Sprintf("sshSanitizeFilePath accepts a %s that resolves to %s (%s)", pClass, how, sbClass), detail)
+				c.Violation(fmt.Sprintf("sshSanitizeFilePath accepts %s that resolves to %s (%s)", pClass, how, sbClass), detail)
 				continue
 			}
 			gotLoc := c45Resolve(c45Loc{}, got) // the returned string is what os.Create/WriteFile gets: process-relative
 			if !c45Inside(sbLoc, gotLoc) {
 				detail["returned_resolves_to"] = gotLoc.String()
-				c.Violation(fmt.Sprintf("sshSanitizeFilePath returns a path outside the sandbox for an accepted %s (%s)", pClass, sbClass), detail)
+				c.Violation(fmt.Sprintf("sshSanitizeFilePath returns a path outside the sandbox after accepting %s (%s)", pClass, sbClass), detail)
 				continue
 			}
 			c.SampleEvery(n, func() any { return map[string]any{"sandbox": sb, "path": p, "returned": got} })
